@@ -10,6 +10,9 @@ pub enum Alphabet {
     Grid(u32),
     /// the `k` smallest words whose multiply-shift image under range `r` is 0..k-1
     Rep { r: u64, k: u32 },
+    /// the words of `Grid(m)` followed by those of `Rep{r,k}`: for support /
+    /// membership oracles only (leaf weights carry no meaning)
+    Mixed { m: u32, r: u64, k: u32 },
 }
 
 impl Alphabet {
@@ -17,6 +20,7 @@ impl Alphabet {
         match *self {
             Alphabet::Grid(m) => m,
             Alphabet::Rep { k, .. } => k,
+            Alphabet::Mixed { m, k, .. } => m + k,
         }
     }
     pub fn word32(&self, j: u32) -> u32 {
@@ -31,6 +35,13 @@ impl Alphabet {
                 let w = (n + r as u128 - 1) / r as u128;
                 w as u32
             }
+            Alphabet::Mixed { m, r, k } => {
+                if j < m {
+                    Alphabet::Grid(m).word32(j)
+                } else {
+                    Alphabet::Rep { r, k }.word32(j - m)
+                }
+            }
         }
     }
     pub fn word64(&self, j: u32) -> u64 {
@@ -43,6 +54,13 @@ impl Alphabet {
                 let n = (j as u128) << 64;
                 let w = (n + r as u128 - 1) / r as u128;
                 w as u64
+            }
+            Alphabet::Mixed { m, r, k } => {
+                if j < m {
+                    Alphabet::Grid(m).word64(j)
+                } else {
+                    Alphabet::Rep { r, k }.word64(j - m)
+                }
             }
         }
     }
@@ -61,15 +79,25 @@ impl<'a> ChoiceRng<'a> {
 
 impl RngCore for ChoiceRng<'_> {
     fn next_u32(&mut self) -> u32 {
+        if self.env.past_horizon() {
+            return 0x8000_0000;
+        }
         let j = self.env.choose(self.alphabet.width(), Kind::U32);
         self.alphabet.word32(j)
     }
     fn next_u64(&mut self) -> u64 {
+        if self.env.past_horizon() {
+            return 0x8000_0000_0000_0000;
+        }
         let j = self.env.choose(self.alphabet.width(), Kind::U64);
         self.alphabet.word64(j)
     }
     fn fill_bytes(&mut self, dst: &mut [u8]) {
         for chunk in dst.chunks_mut(8) {
+            if self.env.past_horizon() {
+                chunk.fill(0x80);
+                continue;
+            }
             let j = self.env.choose(self.alphabet.width(), Kind::Bytes);
             let w = self.alphabet.word64(j).to_le_bytes();
             chunk.copy_from_slice(&w[..chunk.len()]);
